@@ -29,7 +29,8 @@ TECHNIQUE = ("Coq proof over ALL schedules of an interleaving semantics (ThreadP
 RULE = ("rc cases: N in {2,4,8,16} workers x K in 50..100000 pseudo-random get/put on 1..4 shared nodes, three ways of "
         "releasing the creator's reference (after join / racing / handed to a worker), 0..3 extra references checked exactly "
         "after the join; seed cases: N threads released by a barrier on the first use of the key hash in a fresh process, "
-        "random keys; trees cases: N threads on disjoint trees vs a sequential run.  A case is non-trivial when it ran to "
+        "random keys; seedx cases: the same with the first results of json_c_get_random_seed scripted (sentinel -1 first / "
+        "throughout the racing phase / interleaved, 0, INT_MIN, INT_MAX, repeated values); trees cases: N threads on disjoint trees vs a sequential run.  A case is non-trivial when it ran to "
         "its observation; distinct = distinct (kind, N, mode/M/L or R, size bucket, seed)")
 TRUSTED = ["Coq 8.16.1 kernel (coqc), no axioms (Print Assumptions: closed under the global context)",
            "tr/atomics.py (source -> micro-operation translator; fails loudly on any unrecognised statement or stray access)",
@@ -38,7 +39,8 @@ TRUSTED = ["Coq 8.16.1 kernel (coqc), no axioms (Print Assumptions: closed under
            "gcc -E / cmake-generated config.h (HAVE_ATOMIC_BUILTINS), gcc -fsanitize=thread, harness/drv_thr.c, extraction + ocaml glue"]
 ASSUMPTIONS = ["client threads respect ownership: a thread calls get/put on a node only while it owns a reference (wf_init)",
                "initial count + number of gets <= UINT32_MAX (json-c asserts this in debug builds)",
-               "json_c_get_random_seed is an arbitrary oracle; the retry loop makes the published value differ from the sentinel -1",
+               "json_c_get_random_seed is an arbitrary oracle (the runtime stream scripts its first results in the seedx cases); "
+               "the retry loop makes the published value differ from the sentinel -1",
                "ThreadSanitizer evidence is sampled schedules only; one report class is tolerated and counted: plain (volatile) READ "
                "of the 4-byte global random_seed racing with the atomic CAS that installs it (see C18_seed_plain_read_witness)"]
 LEVEL_TEXT = ("Machine-checked for ALL schedules, all thread counts and all ownership-respecting programs: with the micro-operation "
@@ -117,6 +119,29 @@ def rand_key(rng):
     return b.hex() if b else "-"
 
 
+INT_MIN, INT_MAX = -2147483648, 2147483647
+# (N, R, key, draws): a thread makes at most R+2 draws while the seed is unset
+SEEDX_FIXED = [
+    (1, 0, "6b", "-1"),                         # single thread, first draw is the sentinel
+    (1, 2, "6b6579", "-1,x3"),                  # ... on every draw of the thread
+    (2, 1, "61", "-1,x5"),                      # all draws of the racing phase
+    (8, 0, "6b6579", "-1,x15"),
+    (16, 1, "-", "-1,x47"),
+    (4, 1, "7a", "-1,7,-1,8,-1,9"),             # sentinel interleaved with real values
+    (4, 0, "6b", "0,0,0,0"),                    # 0 and repeated values are ordinary seeds
+    (2, 3, "6b6579", "%d,%d" % (INT_MIN, INT_MAX)),
+    (8, 1, "71", "-2,-2,-1,-2"),
+]
+
+
+def rand_draws(rng, n, r):
+    k = rng.choice([1, 2, n, n * (r + 2)])
+    pool = [-1] * 6 + [0, 1, -2, INT_MIN, INT_MAX, 7, 7, rng.randrange(INT_MIN, INT_MAX + 1)]
+    if rng.random() < 0.4:
+        return "-1" + (",x%d" % (k - 1) if k > 1 else "")
+    return ",".join(str(rng.choice(pool)) for _ in range(k))
+
+
 def gen(rng, tier):
     out = []
     quick = tier == "quick"
@@ -141,8 +166,17 @@ def gen(rng, tier):
         out.append(("thr rc 16 100000 1 race 1 %d" % rng.randrange(1, 1 << 20), {"kind": "rc-race"}))
     # --- racing first use of the key hash
     for n in (2, 4, 8, 16):
-        for _ in range(6 if quick else 60):
+        for _ in range(4 if quick else 60):
             out.append(("thr seed %d %d %s" % (n, rng.choice([0, 1, 5]), rand_key(rng)), {"kind": "seed"}))
+    # --- the same with the random source scripted (the theorems hold for EVERY source): the
+    #     sentinel -1 on the first draw(s), on all draws of the racing phase, in the middle;
+    #     0, -2, INT_MIN/INT_MAX, repeated values.  A fixed part (every run) and a random part.
+    for n, r, key, dr in SEEDX_FIXED:
+        out.append(("thr seedx %d %d %s %s" % (n, r, key, dr), {"kind": "seedx"}))
+    for n in (1, 2, 4, 8, 16):
+        for _ in range(2 if quick else 24):
+            r = rng.choice([0, 1, 3])
+            out.append(("thr seedx %d %d %s %s" % (n, r, rand_key(rng), rand_draws(rng, n, r)), {"kind": "seedx"}))
     # --- disjoint trees
     for n in (2, 4, 8, 16):
         for size in ((10, 120) if quick else (10, 60, 120, 600)):
@@ -193,7 +227,7 @@ def oracle(line, meta, impl):
         if d["destroyed"] != m or d["put1"] != m:
             return ("destroy-count", "%d nodes: delete callback ran %d times, json_object_put returned 1 %d times (want exactly once each)" % (m, d["destroyed"], d["put1"]))
         return None
-    if a[1] == "seed":
+    if a[1] in ("seed", "seedx"):
         n = int(a[2])
         if d.get("kind") != "seed":
             return ("malformed", "unexpected driver output: " + impl[:120])
@@ -241,8 +275,38 @@ def _fails(ck, l, cls, tries=3):
     return False
 
 
+def expand_draws(dr):
+    out = []
+    for tok in dr.split(","):
+        if tok.startswith("x") and out:
+            out += [out[-1]] * int(tok[1:])
+        else:
+            out.append(tok)
+    return out
+
+
+def shrink_seedx(ck, a, cls):
+    """fewer threads / repeats / draws; the canonical smallest shapes first"""
+    key, draws = a[4], expand_draws(a[5])
+    for cand in (["thr", "seedx", "1", "0", key, draws[0]], ["thr", "seedx", "1", "0", key, ",".join(draws[:2])],
+                 ["thr", "seedx", "1", a[3], key, ",".join(draws[:int(a[3]) + 2])]):
+        if _fails(ck, " ".join(cand), cls, tries=2):
+            return " ".join(cand)
+    best = a[:5] + [",".join(draws)]
+    n = int(a[2])
+    while n > 1:
+        n = max(1, n // 2)
+        cand = best[:2] + [str(n)] + best[3:]
+        if not _fails(ck, " ".join(cand), cls, tries=2):
+            break
+        best = cand
+    return " ".join(best)
+
+
 def shrink(ck, line, cls):
     a = line.split(" ")
+    if a[1] == "seedx" and len(a) == 6:
+        return shrink_seedx(ck, a, cls)
     if a[1] != "rc":
         return line
     best = a
@@ -268,8 +332,11 @@ def search(rng, broken_lines):
     for mode in MODES:
         for n in (16, 8, 4, 2):
             out.append(("thr rc %d %d 1 %s %d %d" % (n, 60000, mode, rng.choice([0, 2]), rng.randrange(1, 1 << 20)), {"kind": "rc-" + mode}))
-    for _ in range(40):
+    for _ in range(30):
         out.append(("thr seed 16 2 %s" % rand_key(rng), {"kind": "seed"}))
+    for n in (1, 2, 8, 16):
+        for _ in range(6):
+            out.append(("thr seedx %d 1 %s %s" % (n, rand_key(rng), rand_draws(rng, n, 1)), {"kind": "seedx"}))
     for _ in range(6):
         out.append(("thr trees 16 200 %d" % rng.randrange(1, 1 << 20), {"kind": "trees"}))
     return out
